@@ -29,7 +29,7 @@ def shrink(case, kind):
     best, budget = case, 30
 
     def fails(c):
-        return any(k == kind for k, _ in X.build(c, X.run_impl(c))[2])
+        return any(k == kind for cc, rr, pp in X.run_history(c) for k, _ in X.build(cc, rr, pp)[2])
     progress = True
     while progress and budget > 0:
         progress = False
@@ -105,7 +105,9 @@ def translator_stage(ctx: Ctx):
 
 
 def run(ctx: Ctx):
-    ctx.cov["rule"] = ("X: seeded tables (1-3, NULL keys), all link types; a single rule = 0-2 equi-join atoms (incl. substr keys, "
+    ctx.cov["rule"] = ("X: sequences on ONE DatabaseAPI with input tables registered BY NAME [the three analysis calls; the tables' "
+                       "contents replaced; optionally delete_tables_created_by_splink_from_db(); the calls again - without cleanup only "
+                       "count_comparisons is re-checked, the other two are a known finding]; cases: seeded tables (1-3, NULL keys), all link types; a single rule = 0-2 equi-join atoms (incl. substr keys, "
                        "asymmetric l.a = r.b for dedupe) + optional filter atom, or an OR rule without extractable keys, salted on DuckDB; "
                        "rule lists of length 1-4 with array-exploding rules (one or two exploded arrays) on DuckDB; max_rows_limit passed "
                        "explicitly (never hit) in half of the cases; n_largest in {1,2,3,5}; 3 Coq-evaluated comparisons per case; non-trivial = the rule has a "
@@ -160,52 +162,68 @@ def run(ctx: Ctx):
         except Exception:
             ctx.log("witness replay raised", traceback.format_exc()[-800:])
 
+        try:
+            rep, first, second, want = X.replay_witness_stale()
+            ctx.cov["witness_stale_after_table_replaced"] = {"first": first, "second_without_cleanup": second, "fresh": want}
+            if rep:
+                ctx.violation("cumulative_comparisons_to_be_scored_from_blocking_rules_data / n_largest_blocks answer from the SQL-keyed "
+                              f"table cache after a named input table was replaced (no cleanup call): {second} instead of {want}",
+                              {"case": X.WITNESS_STALE, "implementation": {"first": first, "second": second}, "specification": {"second": want}},
+                              {"named_table_replaced_without_cleanup": True, "kind": "stale_analysis"})
+            ctx.expect_known("KF-C14-stale-after-table-replaced", rep, "cumulative / n_largest now recompute after the table changed")
+        except Exception:
+            ctx.log("witness replay raised", traceback.format_exc()[-800:])
+
     terms, owners, labels = [], [], []
     reported, found_any = set(), False
     split_fail = []
     for ci, case in enumerate(cases):
         try:
-            res = X.run_impl(case)
-            ts, ls, bad, obl = X.build(case, res)
+            steps = [(c, r, p, X.build(c, r, p)) for c, r, p in X.run_history(case)]
         except Exception:
             tb = traceback.format_exc()
             ctx.log("implementation/harness raised on case", ci, tb[-1500:])
             ctx.violation("blocking analysis raised on a valid input (or the harness could not drive it)",
                           {"case": case, "traceback": tb}, {"backend": case["backend"], "kind": "raise"})
             continue
-        for name, okk, detail in obl:
-            if not okk:
-                split_fail.append((ci, detail))
-        cnt = res["count"]
-        pre = int(cnt["number_of_comparisons_generated_pre_filter_conditions"])
-        post = int(cnt["number_of_comparisons_to_be_scored_post_filter_conditions"])
-        owners_n = sum(1 for x in res["cum"] if int(x["row_count"]) > 0)
-        ctx.count_case(json.dumps(case, sort_keys=True), pre > post > 0 and owners_n >= 2,
-                       {"backend": case["backend"], "link_type": case["link_type"], "rule": case["rule"], "pre": pre, "post": post,
-                        "rules": case["rules"], "row_counts": [int(x["row_count"]) for x in res["cum"]],
-                        "top": [int(x["block_count"]) for x in res["top"]]})
-        ctx.hist("backend", case["backend"]); ctx.hist("link_type", case["link_type"]); ctx.hist("tables", len(case["tables"]))
-        ctx.hist("n_rules", len(case["rules"])); ctx.hist("rules_owning_pairs", owners_n)
-        ctx.hist("has_equi_keys", bool(cnt["equi_join_conditions_identified"])); ctx.hist("has_filter", bool(cnt["filter_conditions_identified"]))
-        ctx.hist("exploding_rules_in_list", sum(1 for r in case["rules"] if X.is_exploding(r)))
-        ctx.hist("single_rule_salted", isinstance(case["rule"], dict)); ctx.hist("max_rows_limit", case.get("max_rows_limit"))
-        ctx.hist("post_filter", min(post // 5 * 5, 50)); ctx.hist("listed_blocks", len(res["top"]))
-        for t, lab in zip(ts, ls):
-            terms.append(t); owners.append(ci); labels.append(lab)
-        for kind, detail in bad:
-            found_any = True
-            if kind in reported or len(reported) >= 4:
-                continue
-            reported.add(kind)
-            small = shrink(case, kind)
-            try:
-                r2 = X.run_impl(small)
-                d2 = [d for k, d in X.build(small, r2)[2] if k == kind] or [detail]
-            except Exception:
-                small, r2, d2 = case, res, [detail]
-            ctx.violation(f"blocking analysis does not report what blocking produces ({kind}): {d2[0][:300]}",
-                          {"case": small, "implementation": r2, "specification": d2[:5]},
-                          {"backend": small["backend"], "link_type": small["link_type"], "kind": kind})
+        for si, (c, res, parts, (ts, ls, bad, obl)) in enumerate(steps):
+            for name, okk, detail in obl:
+                if not okk:
+                    split_fail.append((ci, detail))
+            cnt = res["count"]
+            pre = int(cnt["number_of_comparisons_generated_pre_filter_conditions"])
+            post = int(cnt["number_of_comparisons_to_be_scored_post_filter_conditions"])
+            owners_n = sum(1 for x in res.get("cum", []) if int(x["row_count"]) > 0)
+            ctx.count_case(json.dumps(c, sort_keys=True), pre > post > 0 and (owners_n >= 2 or si > 0),
+                           {"backend": c["backend"], "link_type": c["link_type"], "rule": c["rule"], "pre": pre, "post": post,
+                            "rules": c["rules"], "row_counts": [int(x["row_count"]) for x in res.get("cum", [])],
+                            "top": [int(x["block_count"]) for x in res.get("top", [])], "call": si})
+            ctx.hist("backend", c["backend"]); ctx.hist("link_type", c["link_type"]); ctx.hist("tables", len(c["tables"]))
+            ctx.hist("n_rules", len(c["rules"])); ctx.hist("rules_owning_pairs", owners_n)
+            ctx.hist("has_equi_keys", bool(cnt["equi_join_conditions_identified"])); ctx.hist("has_filter", bool(cnt["filter_conditions_identified"]))
+            ctx.hist("exploding_rules_in_list", sum(1 for r in c["rules"] if X.is_exploding(r)))
+            ctx.hist("single_rule_salted", isinstance(c["rule"], dict)); ctx.hist("max_rows_limit", c.get("max_rows_limit"))
+            ctx.hist("post_filter", min(post // 5 * 5, 50)); ctx.hist("listed_blocks", len(res.get("top", [])))
+            ctx.hist("call_in_sequence", "first" if si == 0 else ("after tables replaced, " + ("with" if c["step"]["cleanup"] else "without") + " cleanup"))
+            for t, lab in zip(ts, ls):
+                terms.append(t); owners.append(ci); labels.append(lab)
+            for kind, detail in bad:
+                found_any = True
+                if kind in reported or len(reported) >= 4:
+                    continue
+                reported.add(kind)
+                small = shrink(case, kind)
+                try:
+                    hist2 = [(cc, rr, pp, X.build(cc, rr, pp)[2]) for cc, rr, pp in X.run_history(small)]
+                    st2, c2, r2, d2 = next((i, cc, rr, [d for k, d in b if k == kind]) for i, (cc, rr, pp, b) in enumerate(hist2)
+                                           if any(k == kind for k, _ in b))
+                except Exception:
+                    small, st2, c2, r2, d2 = case, si, c, res, [detail]
+                ctx.violation(f"blocking analysis does not report what blocking produces ({kind}"
+                              f"{', call after the named tables were replaced on the same DatabaseAPI' if st2 else ''}): {d2[0][:300]}",
+                              {"case": small, "failing_call": st2, "implementation": r2, "specification": d2[:5]},
+                              {"backend": small["backend"], "link_type": small["link_type"], "kind": kind,
+                               "after_tables_replaced": bool(st2)})
     ctx.obligations += len(cases)
     ctx.discharged += len(cases) - len({c for c, _ in split_fail})
     bad_idx, errs = ctx.eval_cases("C14_x", X.HEADER, terms, "run_case", shard=60)
